@@ -40,6 +40,9 @@ def main(argv=None) -> int:
         from .props.extra import run_extra
 
         run_extra(prop, idx, rep, args.tier)
+        from .props.extra2 import run_extra2
+
+        run_extra2(prop, idx, rep, args.tier)
         if args.tier == "thorough" and not args.no_selftest and not args.repo:
             from .selftest import run_selftest
 
